@@ -405,16 +405,35 @@ func (a Float) M__complex__() (Object, error) {
 }
 
 func (a Float) M__round__(digitsObj Object) (Object, error) {
-	digits := 0
-	if digitsObj != None {
-		var err error
-		digits, err = MakeGoInt(digitsObj)
-		if err != nil {
-			return nil, err
-		}
+	if digitsObj == None {
+		// round to the nearest integer, ties to even, and return an int
+		return Float(math.RoundToEven(float64(a))).M__int__()
 	}
-	scale := Float(math.Pow(10, float64(digits)))
-	return scale * Float(math.Floor(float64(a)/float64(scale))), nil
+	digits, err := MakeGoInt(digitsObj)
+	if err != nil {
+		return nil, err
+	}
+	x := float64(a)
+	if math.IsInf(x, 0) || math.IsNaN(x) || x == 0 {
+		return a, nil
+	}
+	if digits < 0 {
+		scale := math.Pow(10, float64(-digits))
+		rounded := math.RoundToEven(x / scale)
+		if rounded != 0 {
+			rounded *= scale
+		}
+		if math.IsInf(rounded, 0) {
+			return nil, ExceptionNewf(OverflowError, "rounded value too large to represent")
+		}
+		return Float(rounded), nil
+	}
+	// correctly rounded decimal with digits places, read back
+	rounded, err := strconv.ParseFloat(strconv.FormatFloat(x, 'f', digits, 64), 64)
+	if err != nil {
+		return nil, ExceptionNewf(OverflowError, "rounded value too large to represent")
+	}
+	return Float(rounded), nil
 }
 
 // Rich comparison
